@@ -87,6 +87,19 @@ func rule141(r *core.Run, ctx *oblig.Ctx) {
 		if ctx.BaseDesc(ia.X) == "field:gofakes3.multipartUpload.parts" {
 			idxOf[ia.Index] = ia
 		}
+		// an element of the view parts[lo:] at position i is the part lo+i: a value
+		// computed as lo+i (either order) is the absolute index of that element
+		if sl, ok := ia.X.(*ssa.Slice); ok && sl.Low != nil && ctx.BaseDesc(sl.X) == "field:gofakes3.multipartUpload.parts" {
+			core.Instrs(fn, func(in2 ssa.Instruction) {
+				b, ok := in2.(*ssa.BinOp)
+				if !ok || b.Op != token.ADD {
+					return
+				}
+				if (ctx.Equiv(b.X, sl.Low) && ctx.Equiv(b.Y, ia.Index)) || (ctx.Equiv(b.Y, sl.Low) && ctx.Equiv(b.X, ia.Index)) {
+					idxOf[b] = ia
+				}
+			})
+		}
 	})
 	pn := resultFieldStores(r, fn, "gofakes3.ListMultipartUploadPartItem.PartNumber")
 	if len(pn) == 0 {
@@ -224,12 +237,12 @@ func rule143(r *core.Run) {
 					// markers stored in pred or in a block dominating pred that is itself on a truncation-only path
 					hasK, hasU := false, false
 					for _, m := range resultFieldStores(r, fn, "gofakes3.ListMultipartUploadsResult.NextKeyMarker") {
-						if m.Block() == pred || (m.Block().Dominates(pred) && onlyToward(m.Block(), pred)) {
+						if m.Block() == pred || (core.BlockDominates(m.Block(), pred) && onlyToward(m.Block(), pred)) {
 							hasK = true
 						}
 					}
 					for _, m := range resultFieldStores(r, fn, "gofakes3.ListMultipartUploadsResult.NextUploadIDMarker") {
-						if m.Block() == pred || (m.Block().Dominates(pred) && onlyToward(m.Block(), pred)) {
+						if m.Block() == pred || (core.BlockDominates(m.Block(), pred) && onlyToward(m.Block(), pred)) {
 							hasU = true
 						}
 					}
